@@ -292,6 +292,58 @@ def run_number_strings(ctx):
     ctx.extra["number_strings_not_literals"] = n_none
 
 
+QUOTED_BODIES = ("'x'", '"x"', "'" * 3 + "x" + "'" * 3, '"' * 3 + "x" + '"' * 3)
+
+
+def run_prefixes(ctx):
+    """StrPrefix.tla: every letter sequence up to three letters in front of a quoted body, in four quote styles"""
+    import warnings
+    r = ctx.tlc("literal", "StrPrefix", "StrPrefix.cfg", coverage=False, timeout=600)
+    from vcheck import ToolError
+    if len(r.replays) < 800:
+        raise ToolError("vacuity: StrPrefix emitted %d prefixes" % len(r.replays))
+    h = ctx.harness("default")
+    items, dis = [], 0
+    for c in r.replays:
+        for q in QUOTED_BODIES:
+            src = c["prefix"] + q
+            try:
+                with warnings.catch_warnings():
+                    warnings.simplefilter("ignore")
+                    n = pyast.parse(src, mode="eval").body
+                ref = isinstance(n, (pyast.Constant, pyast.JoinedStr)) and n.col_offset == 0 and n.end_col_offset == len(src)
+                refkind = ("fstring" if isinstance(n, pyast.JoinedStr) else "bytes" if isinstance(n.value, bytes) else "str") if ref else None
+                refu = (getattr(n, "kind", None) == "u") if ref else False
+            except (SyntaxError, ValueError):
+                ref, refkind, refu = False, None, False
+            if ref != c["valid"] or (ref and (refkind != c["kind"] or refu != c["u"])):
+                dis += 1
+                ctx.note("spec_reference_disagreement[prefix]: %r spec=%s cpython=%s/%s" % (src, c, ref, refkind))
+                continue
+            items.append((c, src))
+    ctx.extra["spec_reference_disagreements"] = ctx.extra.get("spec_reference_disagreements", 0) + dis
+    for (c, src), resp in zip(items, h.run([{"op": "parse", "src": s, "mode": "Expression"} for c, s in items])):
+        ctx.replayed += 1
+        base = {"fam": "prefix", "src": src, "valid": c["valid"], "kind": c["kind"], "u": c["u"]}
+        got = None
+        if "ok" in resp:
+            b = resp["ok"]["body"]
+            if b.get("range") == [0, len(src)]:
+                if b.get("_t") == "ExprJoinedStr":
+                    got = ("fstring", False)
+                elif b.get("_t") == "ExprConstant" and isinstance(b.get("value"), dict) and b["value"].get("_k") in ("Str", "Bytes"):
+                    got = ("bytes" if b["value"]["_k"] == "Bytes" else "str", b.get("kind") == "u")
+        if c["valid"] and got is None:
+            ctx.mismatch("prefix.not_recognised[%s]" % c["prefix"].lower(), {"src": src, "observed": str(resp)[:160]}, base)
+        elif not c["valid"] and got is not None:
+            ctx.mismatch("prefix.accepted[%s]" % c["prefix"].lower(), {"src": src}, base)
+        elif c["valid"] and got[0] != c["kind"]:
+            ctx.mismatch("prefix.kind[%s]:%s->%s" % (c["prefix"].lower(), c["kind"], got[0]), {"src": src}, base)
+        elif c["valid"] and got[1] != c["u"]:
+            ctx.mismatch("strlit.kind[%s]@prefix" % c["prefix"], {"src": src, "expected_u": c["u"], "observed_u": got[1]}, base)
+    ctx.extra.setdefault("string_cases", {})["prefix_sequences"] = len(items)
+
+
 def pools(ctx):
     rng = random.Random(ctx.seed)
     n = 1500 if ctx.quick else 60000
@@ -380,6 +432,7 @@ def run(ctx):
         ctx.replayed += 1
         check_string(ctx, c, req["src"], resp)
     ctx.extra["string_cases"]["value_sweeps"] = len(reqs)
+    run_prefixes(ctx)
     run_numbers(ctx)
     run_number_strings(ctx)
     pools(ctx)
@@ -391,7 +444,13 @@ def replay(ctx, rec):
     h = ctx.harness("default")
     resp = h.run([{"op": "parse", "src": c["src"], "mode": "Expression"}])[0]
     ctx.replayed += 1
-    if c["fam"] == "numstr":
+    if c["fam"] == "prefix":
+        ok = "ok" in resp and resp["ok"]["body"].get("range") == [0, len(c["src"])] and resp["ok"]["body"].get("_t") in ("ExprConstant", "ExprJoinedStr")
+        if ok != c["valid"]:
+            ctx.mismatch("prefix.%s@replay" % ("accepted" if ok else "not_recognised"), {"src": c["src"]}, c)
+        elif ok and c["kind"] == "str" and (resp["ok"]["body"].get("kind") == "u") != c["u"]:
+            ctx.mismatch("strlit.kind[%s]@prefix" % c["src"][0], {"src": c["src"]}, c)
+    elif c["fam"] == "numstr":
         lit = False
         if "ok" in resp:
             b = resp["ok"]["body"]
